@@ -1169,6 +1169,9 @@ def generate_all():
             HARNESSES[nm] = dict(kernel='settings', family='pair', props=pp, tier=('thorough' if nm in ('k_pair_calc_chunk_size', 'k_pair_next_chunk_size') else 'quick'), bounded=False,
                                  path='%s::vk_pair::%s' % (mod, nm), shape=dict(inputs='full-domain symbolic'), covers_expected=None, covers_min=0,
                                  bound='loop-free (find_chunk_size unrolled 22x with unwinding assertions: complete since the loop halves 2^20), full-domain symbolic inputs')
+    HARNESSES['k_dep_huge_chunk_wraps'] = dict(kernel='dependency', family='dep', props=['C15'], tier='quick', bounded=True,
+                                               path='core::verif_kani::h_dep::k_dep_huge_chunk_wraps', shape=dict(source='real ConIterOfVec, 3 elements, three pulls of size 2^63'),
+                                               covers_expected=None, covers_min=0, bound='finding probe for KF-C15-1: 3 elements, chunk size 2^63, 3 pulls')
     for nm, cov in (('k_drop_filter_collect_vec', 2), ('k_drop_find_early_exit', 2), ('k_drop_map_collect_vec_bag', 1), ('k_drop_real_merge_vec', 0), ('k_drop_real_merge_pinned_vec', 0)):
         HARNESSES[nm] = dict(kernel='api', family='drop', props=['C13'], tier=('thorough' if nm == 'k_drop_filter_collect_vec' else 'quick'), bounded=True,
                              path='core::verif_kani::h_drop::%s' % nm, shape=dict(source='Vec of 3 drop-counting items via the real ConIterOfVec', workers=1),
